@@ -20,11 +20,12 @@ LEVEL = "other"
 TOL = 1e-4
 
 
-def make_case(rng, special=None):
+def make_case(rng, special=None, kind=None):
     from pde import CartesianGrid, CylindricalSymGrid, PolarSymGrid, SphericalSymGrid
     from droplets.droplets import DiffuseDroplet
 
-    kind = rng.choice(["c1", "c2", "c2", "c3", "polar", "spherical", "cyl", "cylp"])
+    kind0 = rng.choice(["c1", "c2", "c2", "c3", "polar", "spherical", "cyl", "cylp"])
+    kind = kind or kind0
     if special is not None:
         kind = "c2" if rng.random() < 0.8 else "c3"
     # the unit of length: every length of the case is multiplied by it (cells far smaller / larger than 1)
@@ -207,7 +208,8 @@ def residual_correspondence(ck: Check):
     grid = UnitGrid([16, 16])
     truth = DiffuseDroplet([8.3, 7.6], 4.0, 1.3)
     reqs, expect = [], []
-    for vmin, vmax, adjust in ((0.0, 1.0, False), (2.0, 5.0, False), (2.0, 5.0, True)):
+    r_of_map = {}
+    for vmin, vmax, adjust in ((0.0, 1.0, False), (2.0, 5.0, False), (2.0, 5.0, True), (0.0, 1e-3, False), (-0.1, 0.1, True), (4e3, 9e3, False)):
         img = truth.get_phase_field(grid, vmin=vmin, vmax=vmax)
         rec = {}
         orig = optimize.least_squares
@@ -225,14 +227,22 @@ def residual_correspondence(ck: Check):
         finally:
             ia.optimize.least_squares = orig
         ck.case(("residual", vmin, vmax, adjust))
+        r_of_map[(vmin, vmax, adjust)] = rec["r_x0"]
         if float(np.max(np.abs(rec["r_truth"]))) > 1e-12 * max(1.0, abs(vmax)):
             ck.fail(f"the ground truth is not a zero of the residual (max |r| = {np.max(np.abs(rec['r_truth']))})", {"check": "truth_zero_residual", "adjust": adjust}, {"vmin": vmin, "vmax": vmax})
         render = cand._get_phase_field(grid)[mask]
         data = img.data[mask]
         name = "fitted" if adjust else "fixed"
         for k in range(0, len(data), max(1, len(data) // 12)):
-            reqs.append(f"c05 {name} {fbits(vmin)} {fbits(vmax - vmin)} {fbits(render[k])} {fbits(data[k])}")
+            reqs.append(f"c05 {name} {fbits(vmin)} {fbits(vmax - vmin)} {fbits(render[k])} {fbits(data[k])} {fbits(vmax - vmin)}")
             expect.append((float(rec["r_x0"][k]), {"vmin": vmin, "vmax": vmax, "adjust": adjust, "cell": k}))
+    # what the solver is handed does not depend on the affine intensity map (Props/C05 residual_intensity_invariant)
+    ref = r_of_map[(0.0, 1.0, False)]
+    for key, r in r_of_map.items():
+        if float(np.max(np.abs(r - ref))) > 1e-9 * float(np.max(np.abs(ref))):
+            # (a diverging correspondence with the theorem, not by itself a violation: the recovery streams are the search for a failing input)
+            ck.mismatch("c05-residual", f"the residual handed to the solver depends on the intensity map: levels {key[:2]} give max |r| = {np.max(np.abs(r)):.3g}, levels (0, 1) give "
+                        f"{np.max(np.abs(ref)):.3g} for the same droplet and candidate (Props/C05 residual_intensity_invariant)", {"vmin": key[0], "vmax": key[1], "adjust": key[2]})
     outs = run_driver(reqs)
     for (want, case), out in zip(expect, outs):
         mv = bits_to_float(out.split()[1]) if out.startswith("ok") else None
@@ -320,6 +330,54 @@ def small_radial(ck: Check, n: int):
                     {**sig, "check": "recovery"}, case)
 
 
+def rules_on_mapped_emulsions(ck: Check, n: int):
+    """every threshold rule on EMULSIONS (2-4 droplets) and radial droplets whose intensities are an affine map of the standard profile,
+    incl. images lying wholly below / above the unit interval and tiny / large contrasts: the count must be right before any fit"""
+    from pde import ScalarField
+    from droplets.emulsions import Emulsion
+    from droplets.image_analysis import locate_droplets
+
+    rng = ck.rng
+    maps = [(0.3, 4.0), (0.2, -0.1), (0.3, 0.05), (3.0, 2.0), (1e3, -5e2), (1e-3, 0.0)]
+    rules = ["otsu", "mean", "extrema", "auto"]
+    for i in range(n):
+        kind = ["c2", "c2", "polar", "c1", "spherical", "cyl"][i % 6]
+        for _ in range(50):
+            grid, drops = make_case(rng, None, kind=kind)
+            if drops and (kind not in ("c2", "c1") or len(drops) >= 2):
+                break
+        else:
+            continue
+        a, b = maps[(i // 2) % len(maps)]
+        rule = rules[i % len(rules)]
+        base = Emulsion(drops).get_phasefield(grid).data
+        field = ScalarField(grid, a * base + b)
+        vmin, vmax = b, a + b
+        case = {"grid": repr(grid), "droplets": [d.data.tolist() for d in drops], "intensity_map": [a, b], "threshold": rule, "levels": "given", "kind": "rules-on-mapped-emulsions"}
+        sig = {"grid": type(grid).__name__, "dim": grid.dim, "levels": "given", "threshold": rule}
+        ck.case(("rules-mapped", repr(grid), tuple(d.data.tobytes() for d in drops), a, b, rule))
+        ck.count(f"special.rules_on_mapped_emulsions.{rule}")
+        try:
+            found = locate_droplets(field, threshold=rule, refine=True, refine_args=dict(vmin=vmin, vmax=vmax))
+        except Exception as e:  # noqa: BLE001
+            ck.fail(f"locate_droplets(refine=True) raised {type(e).__name__}: {e}", {**sig, "check": "recovery", "error": type(e).__name__}, case)
+            continue
+        if len(found) != len(drops):
+            ck.fail(f"{len(found)} droplets returned for {len(drops)} rendered (threshold rule {rule}, intensities {a}*profile+{b})", {**sig, "check": "recovery_count"}, case)
+            continue
+        unused = list(range(len(found)))
+        for d in drops:
+            j = min(unused, key=lambda t: np.linalg.norm(pdiff(found[t].position, d.position, grid)))
+            unused.remove(j)
+            f = found[j]
+            ep = float(np.linalg.norm(pdiff(f.position, d.position, grid))) / d.radius
+            er = abs(f.radius - d.radius) / d.radius
+            ew = abs(f.interface_width - d.interface_width) / d.interface_width if f.interface_width is not None else float("inf")
+            if max(ep, er, ew) > TOL:
+                ck.fail(f"recovery error position {ep:.2e}, radius {er:.2e}, width {ew:.2e} exceeds 1e-4 (rule {rule}, map {a}, {b})", {**sig, "check": "recovery"},
+                        {**case, "found": [x.data.tolist() for x in found]})
+
+
 def replay(case: dict):
     ck = Check("C05", "quick", 0, level=LEVEL)
     run_cases(ck, 25)
@@ -345,4 +403,5 @@ def run(ck: Check):
         ck.mismatch("c05-residual", f"driver unavailable: {e}", {})
     periodic_cylinder_boundary(ck, ck.budget(4, 40))
     small_radial(ck, ck.budget(8, 120))
+    rules_on_mapped_emulsions(ck, ck.budget(12, 240))
     run_cases(ck, ck.budget(45, 1200))
